@@ -92,9 +92,22 @@ type vStream struct {
 	failErr error
 	// maxChunk > 0: deliver at most maxChunk bytes per Read
 	maxChunk int
+	// content: 0 offset stamps, 1 all 256 byte values in turn, 2 sixteen bytes covering every nibble equally,
+	// 3 constant 0x1B (00 01 10 11), 4 zeros
+	kind int
 }
 
-func vStreamByte(i int) byte {
+func vStreamByte(kind, i int) byte {
+	switch kind {
+	case 1:
+		return byte(i)
+	case 2:
+		return []byte{0x01, 0x23, 0x45, 0x67, 0x89, 0xab, 0xcd, 0xef, 0x10, 0x32, 0x54, 0x76, 0x98, 0xba, 0xdc, 0xfe}[i%16]
+	case 3:
+		return 0x1b
+	case 4:
+		return 0
+	}
 	// offset stamp: bytes [4m, 4m+4) hold the big-endian value 4m
 	base := i - i%4
 	return byte(base >> uint(8*(3-i%4)))
@@ -112,7 +125,7 @@ func (s *vStream) Read(p []byte) (int, error) {
 			n = 0
 		}
 		for i := 0; i < n; i++ {
-			p[i] = vStreamByte(s.pos + i)
+			p[i] = vStreamByte(s.kind, s.pos+i)
 		}
 		s.pos += n
 		if s.failErr != nil {
@@ -121,7 +134,7 @@ func (s *vStream) Read(p []byte) (int, error) {
 		return n, io.EOF
 	}
 	for i := 0; i < n; i++ {
-		p[i] = vStreamByte(s.pos + i)
+		p[i] = vStreamByte(s.kind, s.pos+i)
 	}
 	s.pos += n
 	return n, nil
@@ -142,4 +155,14 @@ func vErrItem(err error) int {
 		}
 	}
 	return best
+}
+
+// P-value of the poker test with pattern length m on bytes [0, n) of the stream of the given kind
+func vPokerExpect(kind, n, m int) float64 {
+	data := make([]byte, n)
+	for i := range data {
+		data[i] = vStreamByte(kind, i)
+	}
+	p, _ := randomness.PokerTestBytes(data, m)
+	return p
 }
